@@ -58,7 +58,7 @@ def _make(K, C, M, newton=False):
     return simu
 
 
-def _set_algo(simu, p):
+def _set_algo(simu, p, spelling="member"):
     from EasyFEA.Simulations.Solvers import AlgoType
 
     dt = float(fr(p["dt"]))
@@ -66,7 +66,8 @@ def _set_algo(simu, p):
     if p["algo"] == "parabolic":
         simu.Solver_Set_Parabolic_Algorithm(dt, al)
     else:
-        simu.Solver_Set_Hyperbolic_Algorithm(dt, algo=AlgoType(p["algo"]), beta=be, gamma=ga, alpha=al)
+        # TimeSchemes.tla, Spelling: the scheme is named by the member of the enumeration or by its name
+        simu.Solver_Set_Hyperbolic_Algorithm(dt, algo=(p["algo"] if spelling == "name" else AlgoType(p["algo"])), beta=be, gamma=ga, alpha=al)
 
 
 def _close(x, y, scale):
@@ -116,7 +117,7 @@ def replay(ctx, beh, idx, newton_too=True):
                 if not (np.array_equal(Kn, K) and np.array_equal(Cn, C) and np.array_equal(Mn, M)):
                     K[...], C[...], M[...] = Kn, Cn, Mn
                     simu.model.Need_Update()  # what a parameter setter does: the simulation is notified and re-assembles
-            _set_algo(simu, p)
+            _set_algo(simu, p, beh.get("spelling", "member"))
             simu.Bc_Init()
             F = vec(st["F"])
             if np.any(F != 0):
